@@ -174,7 +174,9 @@ class MimoBase:
             allowed dimensions will depend on the particular MIMO scheme
             implemented in a subclass.
         """
-        self._channel = channel
+        # Store our own copy: the channel of this object must not follow
+        # later changes that the caller makes to the array it passed
+        self._channel = np.array(channel)
 
     @property
     def Nt(self) -> int:
